@@ -10,9 +10,18 @@
   domain, the `mergo.WithOverride` argument of the two gera call sites by
   go/ast, the stage-visibility table by evaluating template.Sequence.Execute,
   the defaults/vars/user-vars ranking by evaluating ConsolidatedVarStack on a
-  real role. The `_is_code` theorems identify the model with those tables, so
+  real role, the ranking workflow / task template vars / task template
+  defaults by evaluating BuildTaskCommand and BuildPropertyMap on a real task
+  role. The `_is_code` theorems identify the model with those tables, so
   the theorems below are about what the code computes now. The model as a
   whole is tied by the correspondence run (harness/props/c14).
+
+  Two configurations of `BuildTaskCommand` (`Vars.TaskCfg`): `codeCfg` — the code
+  as it is, with the repair of finding task_template_defaults_over_vars
+  (notes/C14.fix-1.patch: workflow ▷ (template vars ▷ template defaults)) — and
+  `legacyCfg`, the code before it ((workflow ▷ defaults) ▷ vars).
+  `C14_task_rank_is_code` ties `codeCfg` to the linked code: it breaks when the
+  repair is reverted. `modelObs` = `modelObsOf codeCfg`.
 
   Second part (Model/VarsTree, Proofs/VarsTree): the LOADED tree (iterator
   expansion) and histories of runtime writes on it — a write is visible exactly
@@ -66,6 +75,25 @@ theorem C14_kind_rank_is_code :
       | none => 0
       | some v => if v = "d" then 1 else if v = "v" then 2 else 3)
     = Gen.VarsFacts.kindRankTable := by
+  decide
+
+/-- Under the workflow, the model ranks the task template's vars over its defaults —
+    for the command line (`cmdStack`, the code as it is) and for the properties
+    (`propStack`) — exactly as the real BuildTaskCommand / BuildPropertyMap do on a real
+    task role (all 8 subsets of {template defaults, template vars, workflow} defining the
+    key). Reverting the repair of `task_template_defaults_over_vars` makes this false
+    (cell 3 of the command line becomes the defaults' value). -/
+theorem C14_task_rank_is_code :
+    (List.range 8).map (fun mask =>
+      let wf : KV := if mask / 4 % 2 = 1 then [("k", "w")] else []
+      let td : KV := if mask % 2 = 1 then [("k", "d")] else []
+      let tv : KV := if mask / 2 % 2 = 1 then [("k", "v")] else []
+      let code : Option String → Nat := fun o =>
+        match o with
+        | none => 0
+        | some v => if v = "d" then 1 else if v = "v" then 2 else 3
+      (code (lookup (cmdStackOf codeCfg wf [] td tv) "k"), code (lookup (propStack wf [] td tv) "k")))
+    = Gen.VarsFacts.taskRankTable := by
   decide
 
 /-! ## the property -/
@@ -170,40 +198,51 @@ theorem C14_stage_late_is_full_view (p : Path) (stage : Nat) (k : String) (h : 4
   simp [rankedAt, hs, ranked, get_cons, lookup, get_append]
 
 /-- A task template's own defaults and vars rank below everything coming from
-    the workflow, for the command line and for the properties alike. -/
+    the workflow, and its vars above its defaults — for the command line and for
+    the properties alike (the code as it is). -/
 theorem C14_template_below_workflow (wf special td tv : KV) (k : String) (hk : lookup special k = none) :
-    lookup (cmdStack wf special td tv) k = orElse (lookup wf k) (orElse (lookup td k) (lookup tv k)) ∧
+    lookup (cmdStack wf special td tv) k = orElse (lookup wf k) (orElse (lookup tv k) (lookup td k)) ∧
     lookup (propStack wf special td tv) k = orElse (lookup wf k) (orElse (lookup tv k) (lookup td k)) := by
-  simp [cmdStack, propStack, lookup_wrappedAndFlattened, lookup_overlay, hk, get_cons, orElse_assoc]
+  simp [cmdStack, propStack, lookup_wrappedAndFlattened, lookup_overlay, hk, get_cons]
 
-/-- In particular: whatever the workflow defines (also as empty) reaches the task unchanged. -/
-theorem C14_workflow_value_reaches_task (wf special td tv : KV) (k v : String)
+/-- The code as it was (`legacyCfg`): below the workflow too, but the template's
+    defaults BEFORE its vars on the command line. -/
+theorem C14_legacy_template_below_workflow (wf special td tv : KV) (k : String) (hk : lookup special k = none) :
+    lookup (legacyCmdStack wf special td tv) k = orElse (lookup wf k) (orElse (lookup td k) (lookup tv k)) := by
+  simp [legacyCmdStack, lookup_wrappedAndFlattened, lookup_overlay, hk, get_cons, orElse_assoc]
+
+/-- In particular: whatever the workflow defines (also as empty) reaches the task
+    unchanged — in either configuration. -/
+theorem C14_workflow_value_reaches_task (cfg : TaskCfg) (wf special td tv : KV) (k v : String)
     (hk : lookup special k = none) (hv : lookup wf k = some v) :
-    lookup (cmdStack wf special td tv) k = some v ∧ lookup (propStack wf special td tv) k = some v := by
-  have := C14_template_below_workflow wf special td tv k hk
-  simp [this, hv]
+    lookup (cmdStackOf cfg wf special td tv) k = some v ∧ lookup (propStack wf special td tv) k = some v := by
+  have h := C14_template_below_workflow wf special td tv k hk
+  have hl := C14_legacy_template_below_workflow wf special td tv k hk
+  obtain ⟨b⟩ := cfg
+  cases b <;> simp [cmdStackOf, h, hl, hv]
 
 /-- Full-strength tie between mechanism and rule: the model's observation at a
     role is what the Spec demands, for every role description, key universe and
-    special-value map over the six special names. REFUTED below: the command
-    line ranks the task template's defaults over its vars. -/
-def C14_model_meets_spec_full : Prop :=
+    special-value map over the six special names. PROVED for the code as it is
+    (`C14_model_meets_spec_code`), REFUTED for the code as it was
+    (`C14_finding_task_template_defaults_over_vars`: the command line ranked the
+    task template's defaults over its vars). -/
+def C14_model_meets_spec_full (cfg : TaskCfg) : Prop :=
   ∀ (keys : List String) (special : KV) (r : RoleIn),
-    (∀ k ∈ keys, lookup special k = none) → modelObs keys special r = expected keys r
+    (∀ k ∈ keys, lookup special k = none) → modelObsOf cfg keys special r = expected keys r
 
-/-- The same with the excluded class spelled out (`tmplOrderIrrelevant`): the
-    correspondence run compares the code with `modelObs`, this theorem carries
-    that over to `Spec.expected` — everything the property demands of stack,
-    maps, Get, FlattenStack, the six stages and the task's properties holds for
-    ALL inputs; the task's command line is the only part that needs the hypothesis. -/
-theorem C14_model_meets_spec_partial (keys : List String) (special : KV) (r : RoleIn)
-    (hclear : ∀ k ∈ keys, lookup special k = none) (hyp : tmplOrderIrrelevant keys r = true) :
-    modelObs keys special r = expected keys r := by
+/-- The code as it is meets the Spec at full strength — stack, maps, Get,
+    FlattenStack, the six stages, the task's properties AND its command line,
+    for ALL inputs, no excluded class. The correspondence run compares the code
+    with `modelObs` (= `modelObsOf codeCfg`); this theorem carries that over to
+    `Spec.expected`. -/
+theorem C14_model_meets_spec_code : C14_model_meets_spec_full codeCfg := by
+  intro keys special r hclear
   have congr := tabulate_congr keys
   have hfl : ∀ c : Chain, tabulate keys (lookup (flatten c)) = tabulate keys (get c) :=
     fun c => congr _ _ (fun k _ => lookup_flatten c k)
   obtain ⟨p, locals, tmpl⟩ := r
-  simp only [modelObs, expected, consolidatedMaps, hfl]
+  simp only [modelObsOf, expected, consolidatedMaps, hfl]
   congr 1
   · exact congr _ _ (fun k _ => lookup_consolidated p k)
   · exact congr _ _ (fun k _ => C14_flattenStack p k)
@@ -218,46 +257,78 @@ theorem C14_model_meets_spec_partial (keys : List String) (special : KV) (r : Ro
       constructor
       · apply congr
         intro k hk
+        simp only [cmdStackOf, codeCfg, if_true]
         rw [(C14_template_below_workflow _ special td tv k (hclear k hk)).1, lookup_consolidated]
-        have h := (List.all_eq_true.mp hyp) k hk
-        simp only [Bool.or_eq_true, Option.isSome_iff_exists, Option.isNone_iff_eq_none, beq_iff_eq] at h
-        simp only [firstDefined, rankedTask, get_append, get_cons, get_nil, orElse_none_right]
-        rcases h with ((⟨v, hv⟩ | h) | h) | h
-        · rw [hv]; rfl
-        · rw [h]; simp
-        · rw [h]; simp
-        · rw [h]
+        simp [firstDefined, rankedTask, get_append, get_cons]
       · apply congr
         intro k hk
         rw [(C14_template_below_workflow _ special td tv k (hclear k hk)).2, lookup_consolidated]
         simp [firstDefined, rankedTask, get_append, get_cons]
 
-/-- Known finding `task_template_defaults_over_vars`, refuted on a witness: a task
-    under a bare root whose template sets `k` in defaults AND in vars. Its
-    properties see the vars' value, its command line the defaults' value. -/
-theorem C14_finding_task_template_defaults_over_vars : ¬ C14_model_meets_spec_full := by
+/-- The command line of the code as it is follows the documented order: workflow,
+    then template vars, then template defaults. -/
+theorem C14_cmd_follows_rule (keys : List String) (special : KV) (p : Path) (locals td tv : KV)
+    (hclear : ∀ k ∈ keys, lookup special k = none) :
+    ((modelObs keys special { path := p, locals := locals, tmpl := some (td, tv) }).task.map (·.1))
+      = some (tabulate keys (firstDefined (rankedTask p td tv))) := by
+  unfold modelObs
+  rw [C14_model_meets_spec_code keys special _ hclear]
+  rfl
+
+/-- For EITHER configuration, with the class the repair was about spelled out
+    (`tmplOrderIrrelevant`): where the relative order of the template's two maps
+    cannot matter, the code as it was met the Spec too — the task's command line
+    was the only part that needed the hypothesis. -/
+theorem C14_model_meets_spec_partial (cfg : TaskCfg) (keys : List String) (special : KV) (r : RoleIn)
+    (hclear : ∀ k ∈ keys, lookup special k = none) (hyp : tmplOrderIrrelevant keys r = true) :
+    modelObsOf cfg keys special r = expected keys r := by
+  rw [← C14_model_meets_spec_code keys special r hclear]
+  obtain ⟨b⟩ := cfg
+  cases b
+  · obtain ⟨p, locals, tmpl⟩ := r
+    cases tmpl with
+    | none => rfl
+    | some t =>
+      obtain ⟨td, tv⟩ := t
+      have hcmd : tabulate keys (lookup (cmdStackOf { cmdVarsOverDefaults := false } (consolidated p) special td tv))
+          = tabulate keys (lookup (cmdStackOf codeCfg (consolidated p) special td tv)) := by
+        apply tabulate_congr
+        intro k hk
+        simp only [cmdStackOf, codeCfg, if_true, Bool.false_eq_true, if_false]
+        rw [(C14_template_below_workflow _ special td tv k (hclear k hk)).1,
+          C14_legacy_template_below_workflow _ special td tv k (hclear k hk), lookup_consolidated]
+        have h := (List.all_eq_true.mp hyp) k hk
+        simp only [Bool.or_eq_true, Option.isSome_iff_exists, Option.isNone_iff_eq_none, beq_iff_eq] at h
+        rcases h with ((⟨v, hv⟩ | h) | h) | h
+        · rw [hv]; rfl
+        · rw [h]; simp
+        · rw [h]; simp
+        · rw [h]
+      simp only [modelObsOf, Option.map_some, hcmd]
+  · rfl
+
+/-- Finding `task_template_defaults_over_vars` (repaired), refuted for the code as
+    it was on a witness: a task under a bare root whose template sets `k` in
+    defaults AND in vars. Its properties saw the vars' value, its command line the
+    defaults' value. -/
+theorem C14_finding_task_template_defaults_over_vars : ¬ C14_model_meets_spec_full legacyCfg := by
   intro h
   have := h ["k"] [] { path := [{ defaults := [], vars := [], userVars := [] }, { defaults := [], vars := [], userVars := [] }],
                        locals := [], tmpl := some ([("k", "td")], [("k", "tv")]) } (by intro k _; rfl)
   revert this
   decide
 
-/-- With notes/C14.fix.patch (`cmdStackFixed`) the command line follows the
-    documented order, so the hypothesis of the partial theorem becomes unnecessary. -/
-theorem C14_cmd_fixed_follows_rule (wf special td tv : KV) (k : String) (hk : lookup special k = none) :
-    lookup (cmdStackFixed wf special td tv) k = orElse (lookup wf k) (orElse (lookup tv k) (lookup td k)) := by
-  simp [cmdStackFixed, lookup_wrappedAndFlattened, lookup_overlay, hk, get_cons]
-
-/-- What the command line does see (as coded): workflow, then template defaults, then template vars. -/
-theorem C14_cmd_as_coded (keys : List String) (special : KV) (p : Path) (locals td tv : KV)
+/-- What the command line saw before the repair: workflow, then template defaults, then template vars. -/
+theorem C14_legacy_cmd_order (keys : List String) (special : KV) (p : Path) (locals td tv : KV)
     (hclear : ∀ k ∈ keys, lookup special k = none) :
-    ((modelObs keys special { path := p, locals := locals, tmpl := some (td, tv) }).task.map (·.1))
-      = some (tabulate keys (firstDefined (rankedCmdAsCoded p td tv))) := by
-  simp only [modelObs, Option.map_some, Option.some.injEq]
+    ((modelObsOf legacyCfg keys special { path := p, locals := locals, tmpl := some (td, tv) }).task.map (·.1))
+      = some (tabulate keys (firstDefined (rankedCmdLegacy p td tv))) := by
+  simp only [modelObsOf, Option.map_some, Option.some.injEq]
   apply tabulate_congr
   intro k hk
-  rw [(C14_template_below_workflow _ special td tv k (hclear k hk)).1, lookup_consolidated]
-  simp [firstDefined, rankedCmdAsCoded, get_append, get_cons]
+  simp only [cmdStackOf, legacyCfg, Bool.false_eq_true, if_false]
+  rw [C14_legacy_template_below_workflow _ special td tv k (hclear k hk), lookup_consolidated]
+  simp [firstDefined, rankedCmdLegacy, get_append, get_cons]
 
 /-! ## writes after load: visible exactly in the subtree of the role they were written on
 
@@ -306,17 +377,27 @@ theorem C14_history_roles (t : Forest) (ws : List Write) (env : Path) (tmpl : Op
     rolesAfter t ws env tmpl = rolesReplayed t ws env tmpl :=
   rolesAfter_eq_rolesReplayed t ws env tmpl
 
-/-- … and so what the model observes at every role after a history is what the
-    documented precedence demands of that role's own chain (same excluded class as
-    `C14_model_meets_spec_partial`: the command line of a task template). -/
-theorem C14_history_meets_spec_partial (keys : List String) (special : KV) (t : Forest) (ws : List Write)
-    (env : Path) (tmpl : Option (KV × KV)) (hclear : ∀ k ∈ keys, lookup special k = none)
-    (hyp : ∀ r ∈ rolesReplayed t ws env tmpl, tmplOrderIrrelevant keys r = true) :
+/-- … and so what the model of the code as it is observes at every role after a
+    history is what the documented precedence demands of that role's own chain — all
+    trees, all histories, no excluded class. -/
+theorem C14_history_meets_spec_code (keys : List String) (special : KV) (t : Forest) (ws : List Write)
+    (env : Path) (tmpl : Option (KV × KV)) (hclear : ∀ k ∈ keys, lookup special k = none) :
     (rolesAfter t ws env tmpl).map (modelObs keys special) = (rolesReplayed t ws env tmpl).map (expected keys) := by
   rw [C14_history_roles]
   apply List.map_congr_left
+  intro r _
+  exact C14_model_meets_spec_code keys special r hclear
+
+/-- The same for either configuration under the hypothesis of
+    `C14_model_meets_spec_partial` (what held of the code as it was). -/
+theorem C14_history_meets_spec_partial (cfg : TaskCfg) (keys : List String) (special : KV) (t : Forest) (ws : List Write)
+    (env : Path) (tmpl : Option (KV × KV)) (hclear : ∀ k ∈ keys, lookup special k = none)
+    (hyp : ∀ r ∈ rolesReplayed t ws env tmpl, tmplOrderIrrelevant keys r = true) :
+    (rolesAfter t ws env tmpl).map (modelObsOf cfg keys special) = (rolesReplayed t ws env tmpl).map (expected keys) := by
+  rw [C14_history_roles]
+  apply List.map_congr_left
   intro r hr
-  exact C14_model_meets_spec_partial keys special r hclear (hyp r hr)
+  exact C14_model_meets_spec_partial cfg keys special r hclear (hyp r hr)
 
 /-- `caseOk` accepts exactly the list of expected observations … -/
 theorem C14_caseOk_expected (keys : List String) (rs : List RoleIn) :
@@ -325,12 +406,20 @@ theorem C14_caseOk_expected (keys : List String) (rs : List RoleIn) :
   | nil => rfl
   | cons r rest ih => simp [caseOk, roleOk, ih]
 
-/-- … hence the model's observation of a loaded tree after any history satisfies `Spec.writesOk`. -/
-theorem C14_history_writesOk_partial (keys : List String) (special : KV) (t : Forest) (ws : List Write)
+/-- … hence the observation the model of the code as it is makes of a loaded tree after
+    any history satisfies `Spec.writesOk` — unconditionally. -/
+theorem C14_history_writesOk_code (keys : List String) (special : KV) (t : Forest) (ws : List Write)
+    (env : Path) (tmpl : Option (KV × KV)) (hclear : ∀ k ∈ keys, lookup special k = none) :
+    writesOk keys t ws env tmpl ((rolesAfter t ws env tmpl).map (modelObs keys special)) = true := by
+  rw [C14_history_meets_spec_code keys special t ws env tmpl hclear]
+  exact C14_caseOk_expected keys _
+
+/-- Either configuration, under the hypothesis of the partial theorem. -/
+theorem C14_history_writesOk_partial (cfg : TaskCfg) (keys : List String) (special : KV) (t : Forest) (ws : List Write)
     (env : Path) (tmpl : Option (KV × KV)) (hclear : ∀ k ∈ keys, lookup special k = none)
     (hyp : ∀ r ∈ rolesReplayed t ws env tmpl, tmplOrderIrrelevant keys r = true) :
-    writesOk keys t ws env tmpl ((rolesAfter t ws env tmpl).map (modelObs keys special)) = true := by
-  rw [C14_history_meets_spec_partial keys special t ws env tmpl hclear hyp]
+    writesOk keys t ws env tmpl ((rolesAfter t ws env tmpl).map (modelObsOf cfg keys special)) = true := by
+  rw [C14_history_meets_spec_partial cfg keys special t ws env tmpl hclear hyp]
   exact C14_caseOk_expected keys _
 
 /-- What role `s` SEES after `SetRuntimeVar(k, v)` on the `i`-th role of its chain
